@@ -231,6 +231,48 @@ func runC19(t *Trace, r *Rng, tier string, _ []string) {
 		}
 	}
 
+	// --- (2b) rune sweep: every rune of the blocks that text-folding tables single out (all runes in the
+	// thorough tier), alone and three times in a row, through every char filter and token filter; one
+	// line per component and block of 256 runes, carrying the first failure if there is one
+	sweep := [][2]rune{{0x00, 0x250}, {0x370, 0x600}, {0x1e00, 0x3400}, {0xa640, 0xa800}, {0xfb00, 0xfb50}, {0xfe00, 0xfff0}, {0x1f100, 0x1f200}}
+	if tier == "thorough" {
+		sweep = [][2]rune{{0, 0x110000}}
+	}
+	sweepRun := func(cat string, f func(in []byte)) {
+		for _, blk := range sweep {
+			for lo := blk[0]; lo < blk[1]; lo += 256 {
+				first := "ok"
+				for rn := lo; rn < lo+256 && rn < blk[1] && first == "ok"; rn++ {
+					if rn >= 0xd800 && rn < 0xe000 {
+						continue
+					}
+					for _, rep := range []int{1, 3} {
+						in := []byte(strings.Repeat(string(rn), rep))
+						res := runGuarded(limit, func() string {
+							f(in)
+							return "ok"
+						})
+						if res != "ok" {
+							first = fmt.Sprintf("%s@U+%04X*%d", res, rn, rep)
+							break
+						}
+					}
+				}
+				t.Emit(cat, true, "echo ok", first)
+			}
+		}
+	}
+	for _, name := range charFilters {
+		if cf, err := cache.CharFilterNamed(name); err == nil {
+			sweepRun("rune-sweep/char_filter/"+name, func(in []byte) { cf.Filter(in) })
+		}
+	}
+	for _, name := range tokenFilters {
+		if tf, err := cache.TokenFilterNamed(name); err == nil {
+			sweepRun("rune-sweep/token_filter/"+name, func(in []byte) { tf.Filter(uni.Tokenize(in)) })
+		}
+	}
+
 	// --- (3) fragmenter with arbitrary term locations
 	for i := 0; i < len(inputs); i++ {
 		orig := inputs[i]
